@@ -223,8 +223,11 @@ func runSen(input []byte) (out string) {
 	return "O " + Show(v) + " | "
 }
 
-func suiteChunk(tier string, seed uint64, model string) *Report {
-	rep := &Report{Property: "C03", Tier: tier, Seed: seed}
+// suiteChunk: [only] restricts what is reported: "" = everything (C03), "position" = chunked runs
+// where implementation and model both reject but at different positions, or the reader rejects
+// at another position than the []byte entry point (C09), "fault" = panics (C06).
+func suiteChunk(prop, only, tier string, seed uint64, model string) *Report {
+	rep := &Report{Property: prop, Tier: tier, Seed: seed}
 	r := NewRng(seed)
 	var inputs [][]byte
 	seen := map[string]bool{}
@@ -318,6 +321,21 @@ func suiteChunk(tier string, seed uint64, model string) *Report {
 		if len(j.in) > 4000 {
 			desc = fmt.Sprintf("pad%d+%s natural-reads", strings.Count(string(j.in[:4096]), " "), hx([]byte(strings.TrimLeft(string(j.in), " "))))
 		}
+		if only == "position" {
+			if impl != mod && strings.HasPrefix(impl, "E") && strings.HasPrefix(mod, "E") {
+				rep.Add(Disagreement{Case: desc, Where: feNames[j.fe], Kind: "impl-vs-model:position-chunked", Impl: impl, Model: mod})
+			}
+			if impl != j.whole && strings.HasPrefix(impl, "E") && strings.HasPrefix(j.whole, "E") {
+				rep.Add(Disagreement{Case: desc, Where: feNames[j.fe], Kind: "impl-vs-spec:position-chunked", Impl: impl, Spec: j.whole})
+			}
+			continue
+		}
+		if only == "fault" {
+			if strings.HasPrefix(impl, "F") {
+				rep.Add(Disagreement{Case: desc, Where: feNames[j.fe], Kind: "impl-vs-spec:fault", Impl: impl, Model: mod})
+			}
+			continue
+		}
 		if impl != mod {
 			rep.Add(Disagreement{Case: desc, Where: feNames[j.fe], Kind: "impl-vs-model:chunked", Impl: impl, Model: mod})
 		}
@@ -339,6 +357,9 @@ func suiteChunk(tier string, seed uint64, model string) *Report {
 	}
 	// cross front-end agreement on whole buffers (values by number value)
 	for _, in := range inputs {
+		if only != "" {
+			break
+		}
 		p := RunFE(feParser, in, nil, false)
 		pd, pok := outcomeDocs(feParser, p)
 		for _, fe := range []int{feTokenizer, feGen} {
